@@ -1,3 +1,4 @@
 SPECIFICATION Spec
 INVARIANT StackInv
+INVARIANT ProtocolInv
 CHECK_DEADLOCK FALSE
